@@ -547,6 +547,7 @@ func propC13(t *testing.T, reg *Registry) {
 		return tl2Admissible{ValCase: genVal(rt, items, false), Form: rapid.SampledFrom([]string{"huge-size", "huge-size", "zero-mask", "oversize", "oversize"}).Draw(rt, "form"), Cut: rapid.IntRange(0, 1000).Draw(rt, "cut")}
 	}, func(c tl2Admissible) pbt.Result { return checkC13(reg, c) })
 	propC13Nested(t, reg, items)
+	propC13Results(t, reg)
 }
 
 var _ = fmt.Sprintf
